@@ -283,6 +283,7 @@ func runHistory(t *testing.T, ops []Op, workers int, prefix []int) (*vrt.Result,
 			settled = time.Now()
 		})
 		x.S.MaxSteps = 4000
+		x.S.UnlockPoints = true // a thread can be preempted right after it released the scheduler mutex (before timer resets etc.)
 		x.Run()
 		stepCap := x.S.StepCap
 		stopHistory.Store(true)
@@ -498,6 +499,7 @@ func TestCheck(t *testing.T) {
 		ID: "C24", Level: "model_checking",
 		Rule: "histories = every sequence of ≤ D ops (D=4 quick, 5 thorough) over {Schedule(1, every 1m), Schedule(2, every 2m offset 30s), Schedule(1, every 1m, last = now−3m [catch-up]), Release(1), Advance 60s, Advance 30s, Observe(+1s: When() vs model; +29s)} [thorough adds cron */2, Release(2), re-Schedule with another period] starting with a Schedule, on the real TreeScheduler with 2 workers inside a synctest bubble (real clock package on fake time); for each history every interleaving with ≤ B preemptions (B=2 quick and thorough) of {history thread, scheduler main loop, workers, executor bodies}; oracle = reference list of due times per task (every N min on whole multiples, +offset), exactness/order/non-overlap of Execute calls, no run starting after Release returned, When() = earliest pending due time at quiescent instants, and a loop-iteration counter (hook) for busy waiting. states = decision nodes of the schedule trees, transitions = scheduling steps, traces = executions; non-trivial = executions in which ≥1 run was dispatched",
 		Assumptions: []string{
+			"scheduling points: before every Lock/atomic operation of treescheduler.go, the two committed hook points, the executor body, AND right after every Unlock (vrt UnlockPoints): a thread can lose the processor between releasing the scheduler mutex and its next timer/channel operation, which is where a lock scope narrowed too far shows (added after seed C24-5)",
 			"fast executors only: a run that stays due because its worker is busy makes the loop poll by design; with fake time such polling can never end, so slow executors are outside this check",
 			"sequentially consistent interleavings at the granularity of the scheduler's mutex operations and hook points",
 		},
